@@ -3,7 +3,9 @@ package main
 // C11 — no externally supplied bytes can crash a station: first-flight bytes on phantom connections.
 //
 // Two entry points over a registry that holds registrations of every transport (min, prefix with
-// every default prefix id, obfs4, dtls) on the probed phantoms:
+// every default prefix id, obfs4, dtls) on the probed phantoms, plus — in half of the cases —
+// registrations created by generated registration messages through the real ingest path and probed
+// with flights that are genuine for them (two-step inputs, see zz_verif_c11_genreg_test.go):
 //
 //   wrap — the bytes received so far -> WrapConnection of every wrapping transport (min, prefix,
 //          obfs4), and, when a transport accepts, reading the wrapped connection to its end (the
